@@ -67,6 +67,38 @@ def signature(clause, v, entries, extra="", feats=None):
     return f"{site_for(clause, feats)}|{clause}|{canon}", feats
 
 
+def cpu_s():
+    import resource
+    a, b = resource.getrusage(resource.RUSAGE_SELF), resource.getrusage(resource.RUSAGE_CHILDREN)
+    return round(a.ru_utime + a.ru_stime + b.ru_utime + b.ru_stime, 1)
+
+
+def is_known(ctx, sig):
+    import fnmatch
+    return any(k.get("status", "open") == "open" and (sig == k.get("signature") or fnmatch.fnmatchcase(sig, k.get("signature", "")))
+               for k in ctx.known)
+
+
+CAP = 3
+
+
+def report(ctx, sig, what, replay_obj):
+    """ctx.violation with a cap: one root cause fails on hundreds of minimal cases; beyond the
+    first CAP unlisted signatures per (site, clause, version) the rest are only counted.  Signatures
+    that match a known finding never consume the cap, so a different defect stays visible."""
+    if is_known(ctx, sig):
+        return ctx.violation(sig, what, replay_obj)
+    group = "|".join(sig.split("|")[:2]) + "|" + sig.split("|")[2].split(" ")[0]
+    seen = ctx.__dict__.setdefault("_c11_groups", {})
+    sigs = seen.setdefault(group, set())
+    if sig in sigs or len(sigs) < CAP:
+        sigs.add(sig)
+        return ctx.violation(sig, what, replay_obj)
+    ctx.cov.setdefault("further_failing_minimal_cases", {})
+    ctx.cov["further_failing_minimal_cases"][group] = ctx.cov["further_failing_minimal_cases"].get(group, 0) + 1
+    return True
+
+
 def exc_name(e):
     return type(e).__name__
 
@@ -326,7 +358,7 @@ def _run_blocks(args):
             res["nontrivial"] += 1
         key = _case_key(out)
         dmg = damage_mod and (zlib.crc32(b.encode()) % damage_mod == 0)
-        r = check_exts_case(W, out) if fam == "exts" else check_case(W, out, do_damage=dmg)
+        r = check_exts_case(W, out) if out["exts"] else check_case(W, out, do_damage=dmg)
         res["execs"] += r["execs"]
         res["damage"] += r["damage"]
         if r["mach"]:
@@ -356,8 +388,10 @@ def _run_blocks(args):
 def run_family(ctx, fam, cfg_consts, damage_mod):
     """TLC enumerates the family; every laid-out state is executed on the real code."""
     d = ctx.tmpdir("fam")
-    cfg = os.path.join(d, f"{fam}.cfg")
-    tlc.write_cfg(cfg, spec="Spec", constants=cfg_consts, invariants=["OrderInv", "ShapeInv"])
+    cfg = f"IndexFmt_{fam}.cfg"            # specs/IndexFmt_<family>.cfg: NameMask = 4095, MaxKeys as in FAMILIES
+    with open(os.path.join(tlc.SPECS, cfg)) as f:
+        if f"MaxKeys = {cfg_consts['MaxKeys']}\n" not in f.read():
+            raise MachineryError(f"{cfg} does not carry MaxKeys = {cfg_consts['MaxKeys']}")
     dump = os.path.join(d, "states")
     res = tlc.run("IndexFmt.tla", cfg, workers=8, timeout=1500, dump_states=dump)
     ctx.add_tlc(f"IndexFmt[{fam} MaxKeys={cfg_consts['MaxKeys']}]", res)
@@ -368,6 +402,8 @@ def run_family(ctx, fam, cfg_consts, damage_mod):
     del text
     if len(blocks) * 2 != res.distinct:
         raise MachineryError(f"state dump of {fam} has {len(blocks)} laid-out states, TLC reports {res.distinct} states")
+    if fam in GITBUILD_FROM[ctx.tier]:
+        ctx._c11_blocks = getattr(ctx, "_c11_blocks", []) + blocks
     n = max(1, min(400, (len(blocks) + PROCS * 4 - 1) // (PROCS * 4)))
     jobs = [(fam, blocks[i:i + n], damage_mod) for i in range(0, len(blocks), n)]
     import multiprocessing as mp
@@ -397,7 +433,7 @@ def run_family(ctx, fam, cfg_consts, damage_mod):
                                               "failing_cases": len(fails)}
     ctx._c11_nontrivial = getattr(ctx, "_c11_nontrivial", 0) + tot["nontrivial"]
     report_family_failures(ctx, fam, fails)
-    ctx.log(f"family {fam}: {tot['n']} cases, {tot['execs']} real executions, {tot['damage']} damage trials, {len(fails)} failing cases")
+    ctx.log(f"family {fam}: {tot['n']} cases, {tot['execs']} real executions, {tot['damage']} damage trials, {len(fails)} failing cases (cpu {cpu_s()}s)")
     return tot
 
 
@@ -409,7 +445,7 @@ def report_family_failures(ctx, fam, fails):
         v, skip, keys = f["key"]
         index[(v, skip, frozenset(map(tuple, keys)))] = f
     subsumed = 0
-    for f in fails:
+    for f in sorted(fails, key=lambda f: (len(f["key"][2]), f["exts"], f["key"][0], f["key"][1], sum(len(k[0]) for k in f["key"][2]), repr(f["key"][2]))):
         v, skip, keys = f["key"]
         ks = [tuple(k) for k in keys]
         for cl, detail in sorted(f["clauses"].items()):
@@ -428,14 +464,14 @@ def report_family_failures(ctx, fam, fails):
                 subsumed += 1
                 continue
             ents = f["ents"] or []
-            extra = f"exts={f['exts']}" if fam == "exts" else ""
-            if fam in ("flags", "stat") or not ents:
+            extra = f"exts={f['exts']}" if f["exts"] else ""
+            if fam in ("flags", "stat", "quick") or not ents:
                 extra = (extra + " " + hashlib.sha1(json.dumps(f["key"], default=repr).encode()).hexdigest()[:8]).strip() \
                     if not L.features(f["effv"], ents) else extra
             sig, feats = signature(cl, f["effv"], ents, extra)
             if cl == SHORT_TRAILER:
                 sig, feats = SHORT_TRAILER_SIG, ""
-            ctx.violation(sig, f"[{fam}] {cl}: {detail[:600]}",
+            report(ctx, sig, f"[{fam}] {cl}: {detail[:600]}",
                           {"mode": "R", "family": fam, "clause": cl, "features": feats, "out": f["out"]})
     if subsumed:
         ctx.log(f"family {fam}: {subsumed} failing (case, clause) pairs explained by a smaller failing case")
@@ -444,7 +480,7 @@ def report_family_failures(ctx, fam, fails):
 # --------------------------------------------------------------------------- mode T: traces
 def blank_trace(tid, kind):
     return {"tid": tid, "kind": kind, "v": 2, "hv": 2, "skip": False, "ents": [], "exts": [], "bexts": [], "wrote": True,
-            "obs": [], "trailer": "bad", "rbok": False, "rb": [], "glok": False, "gl": [], "pok": False, "okeys": []}
+            "obs": [], "trailer": "bad", "rbok": False, "rb": [], "glok": False, "gl": [], "pok": False, "okeys": [], "fsckok": True}
 
 
 def observe_file(W, t, path, data, skip, sparse=False, cwd=None):
@@ -466,8 +502,9 @@ def observe_file(W, t, path, data, skip, sparse=False, cwd=None):
             t["glok"], t["gl"] = True, gl
         else:
             t["_glerr"] = err
-    else:
-        t["glok"], t["gl"] = True, None
+    elif pj["ok"]:
+        # no C git at run time: the independent reader (git's rules) stands in for ls-files
+        t["glok"], t["gl"] = True, pj["entries"]
 
 
 def make_dw_trace(W, tid, v, skip, ents):
@@ -518,6 +555,8 @@ def make_git_traces(W, tid, path, label, sparse=False, cwd=None, rewrite=True):
             with open(p2, "rb") as f:
                 b = f.read()
             observe_file(W, t2, p2, b, False, sparse=sparse, cwd=cwd)
+            if cwd is not None:          # a real repository: let git fsck judge the checksum of the rewritten index
+                t2["fsckok"], t2["_fsck"] = W.git.fsck_index_ok(p2, cwd=cwd)
         except Exception as e:  # noqa: BLE001
             t2["wrote"] = False
             t2["_wexc"] = f"{exc_name(e)}: {e}"
@@ -663,22 +702,30 @@ def _gen_traces(args):
 
 
 def _gitbuild_blocks(args):
-    """git builds the index for TLC-enumerated key sets (names / flags families)."""
+    """git builds the index for TLC-enumerated entry sets (what git can be told through
+    update-index: path, stage, mode, id, assume-unchanged and skip-worktree bits)."""
     blocks, tid0 = args
     W = _worker_work()
-    out, skipped, tid = [], 0, tid0
+    out, keys, skipped, tid = [], [], 0, tid0
+    local = set()
     for b in blocks:
         o = L._parse_block(b)
-        if o is None or not o["ins"]:
+        tid += 2
+        if o is None or not o["ins"] or o["exts"]:
             continue
         ents = [dict(e, ita=False, xbit=False) for e in o["ins"]]
+        key = (o["v"], tuple(sorted((L.runs_to_bytes(e["name"]), e["stage"], L.limbs_to_int(e["mode"]), e["valid"] and e["stage"] == 0,
+                                     e["skip"] and e["stage"] == 0) for e in ents)))
+        if key in local:
+            continue
+        local.add(key)
         ts, err = make_gitbuilt_traces(W, tid, o["v"], ents, "update-index --index-info (TLC case)")
-        tid += 2
         if err is not None:
             skipped += 1
             continue
-        out += ts
-    return out, skipped
+        out.append(ts)
+        keys.append(key)
+    return out, skipped, keys
 
 
 def trace_features(t):
@@ -691,7 +738,7 @@ def validate_traces(ctx, traces, label):
     if not traces:
         return 0
     d = ctx.tmpdir("tr")
-    B = 1500
+    B = 4000
     total = 0
     by_tid = {t["tid"]: t for t in traces}
     if len(by_tid) != len(traces):
@@ -721,7 +768,8 @@ def validate_traces(ctx, traces, label):
             v, feats = trace_features(t)
             for cl in prop:
                 detail = {"WriteRaises": t.get("_wexc", ""), "RoundTrip": t.get("_rbexc", "entries differ"),
-                          "ReadsGit": t.get("_rbexc", "entries differ"), "GitLists": t.get("_glerr", "entries differ")}.get(cl, "")
+                          "ReadsGit": t.get("_rbexc", "entries differ"), "GitLists": t.get("_glerr", "entries differ"),
+                          "Checksum": f"trailer {t['trailer']}, git fsck: {t.get('_fsck', 'not run')}"}.get(cl, "")
                 clause = cl
                 if cl == "WriteRaises":
                     clause = f"WriteRaises({t.get('_wexc', '?').split(':')[0]})"
@@ -735,7 +783,7 @@ def validate_traces(ctx, traces, label):
                 if low and t["kind"] == "git" and not feats:
                     # git's mandatory (lower-case) extensions: sdir = sparse index, link = split index
                     sig = f"dulwich/index.py:read_index_dict_with_version|{clause}|mandatory extension {low[0]}"
-                ctx.violation(sig, f"[trace {t['kind']} {lab}] {clause}: {detail[:500]}",
+                report(ctx, sig, f"[trace {t['kind']} {lab}] {clause}: {detail[:500]}",
                               {"mode": "T", "clause": clause, "kind": t["kind"], "label": lab, "features": feats,
                                "input": t.get("_input") or {"v": t["v"], "skip": t["skip"], "ents": t["ents"]},
                                "scenario": t.get("_scenario")})
@@ -769,30 +817,23 @@ def mode_traces(ctx):
         for out, sk in pool.map(_gen_traces, jobs + gjobs, chunksize=1):
             traces += out
             skipped += sk
-        # git builds the TLC-enumerated key sets
+        # git builds the TLC-enumerated key sets (the laid-out states already dumped for mode R)
         if git_available():
-            d = ctx.tmpdir("gb")
-            blocks = []
-            for fam, consts in GITBUILD_FAMILIES[ctx.tier]:
-                cfg = os.path.join(d, f"{fam}.cfg")
-                tlc.write_cfg(cfg, spec="Spec", constants=consts, invariants=["OrderInv"])
-                dump = os.path.join(d, f"st_{fam}")
-                res = tlc.run("IndexFmt.tla", cfg, workers=8, timeout=1500, dump_states=dump)
-                ctx.add_tlc(f"IndexFmt[{fam} for git-built indexes]", res)
-                import re
-                with open(dump + ".dump", encoding="utf-8") as f:
-                    blocks += [b for b in re.split(r"^State \d+:\n", f.read(), flags=re.M)[1:] if b.rstrip().endswith("ph = 1")]
+            blocks = getattr(ctx, "_c11_blocks", [])
             n = max(1, min(300, (len(blocks) + PROCS * 4 - 1) // (PROCS * 4)))
             bj = []
             for i in range(0, len(blocks), n):
                 bj.append((blocks[i:i + n], tid))
                 tid += 2 * n
-            for out, sk in pool.map(_gitbuild_blocks, bj, chunksize=1):
-                traces += out
+            seen = set()
+            for out, sk, keys in pool.map(_gitbuild_blocks, bj, chunksize=1):
                 skipped += sk
-            shutil.rmtree(d, ignore_errors=True)
+                for k, ts in zip(keys, out):
+                    if k not in seen:          # the same git input reached from several enumerated cases
+                        seen.add(k)
+                        traces += ts
     ctx.tid_next = tid
-    ctx.log(f"traces recorded: {len(traces)}")
+    ctx.log(f"traces recorded: {len(traces)} (cpu {cpu_s()}s)")
     ctx.count(len(traces))
     ctx.cov["traces"] = {"dulwich_written": sum(1 for t in traces if t["kind"] == "dw"),
                          "git_written_read_by_dulwich": sum(1 for t in traces if t["kind"] == "git"),
@@ -802,16 +843,14 @@ def mode_traces(ctx):
         if t["kind"] == "dw" and len(t["ents"]) >= 3 and t.get("_profile") == "plain":
             ctx.sample({"kind": "trace dw", "v": t["v"], "skip": t["skip"], "entries": [L.describe(e) for e in t["ents"]][:5]}, limit=6)
             break
-    n = validate_traces(ctx, traces, "random+gitbuilt")
-    ctx.validated(n)
     shutil.rmtree(_POOL_ROOT, ignore_errors=True)
-    ctx.log(f"traces: {len(traces)} recorded ({ctx.cov['traces']}), validated by TLC")
+    return traces
 
 
 def mode_scenarios(ctx):
     """Indexes written by ordinary git commands (real stat data, merges, read-tree, sparse-checkout, caches)."""
     if not git_available():
-        return
+        return []
     W = Work(ctx.tmpdir("scen"))
     traces = []
     tid = getattr(ctx, "tid_next", 10**6)
@@ -825,15 +864,14 @@ def mode_scenarios(ctx):
         labels.append(label)
     ctx.tid_next = tid
     ctx.count(len(traces))
-    n = validate_traces(ctx, traces, "scenarios")
-    ctx.validated(n)
     ctx.cov["scenarios"] = labels
     big = [t for t in traces if t["kind"] == "git" and t["exts"]]
     if big:
         t = big[0]
         ctx.sample({"kind": "trace git", "label": t["_label"], "header_version": t["hv"], "entries": len(t["ents"]),
                     "extensions": [L.runs_to_bytes(x["sig"]).decode("latin1") for x in t["exts"]]}, limit=6)
-    ctx.log(f"scenarios: {len(labels)} git-written indexes, {len(traces)} traces validated")
+    ctx.log(f"scenarios: {len(labels)} git-written indexes, {len(traces)} traces recorded (cpu {cpu_s()}s)")
+    return traces
 
 
 # --------------------------------------------------------------------------- configurations
@@ -842,26 +880,26 @@ def consts(fam, maxkeys, namemask=4095, defect="none"):
 
 
 FAMILIES = {
-    "quick": [("namesq", 2, 11), ("flags", 2, 17), ("stat", 2, 13), ("exts", 2, 0)],
+    "quick": [("quick", 2, 13)],
     "thorough": [("names", 2, 7), ("namesq", 3, 23), ("names3", 3, 23), ("flags", 2, 3), ("stat", 2, 3), ("exts", 3, 0)],
 }
-GITBUILD_FAMILIES = {
-    "quick": [("namesq", consts("namesq", 2))],
-    "thorough": [("names", consts("names", 2)), ("namesq", consts("namesq", 3)), ("flags", consts("flags", 2))],
-}
+GITBUILD_FROM = {"quick": ["quick"], "thorough": ["names", "namesq", "flags"]}
 
 
 def run(ctx):
     global PROCS
     PROCS = 8
+    for f in os.listdir(ctx.replay_dir):        # replay files of earlier runs would be mistaken for this run's
+        if f.endswith(".json"):
+            os.unlink(os.path.join(ctx.replay_dir, f))
     # 1. the format itself: the byte-level reader inverts the layout (NameMask = 7 so that saturation,
     #    the offset varint and every flag bit are reached by short names); negative controls
     res = tlc.run("IndexFmt.tla", ctx.pick("IndexFmt_lemmaq.cfg", "IndexFmt_lemma.cfg"), workers=8, timeout=900)
     ctx.add_tlc("IndexFmt_lemma (NameMask=7, <=2 keys over 13 names x 4 stages, v2/3/4, extensions"
                 + ("" if ctx.quick else ", skipHash on/off") + "): Parse(Bytes(Layout(c))) = Expect(c), order, shape, checksum", res)
-    ctx.log(f"lemma: {res.distinct} states in {res.wall_s:.1f}s")
+    ctx.log(f"lemma: {res.distinct} states in {res.wall_s:.1f}s (cpu {cpu_s()}s)")
     for cfg, what in (("IndexFmt_neg_unsaturated.cfg", "name length not saturated"), ("IndexFmt_neg_leb128.cfg", "LEB128 strip count")):
-        r = tlc.run("IndexFmt.tla", cfg, workers=8, timeout=600)
+        r = tlc.run("IndexFmt.tla", cfg, workers=4, timeout=600)
         ctx.add_tlc(f"{cfg} (negative control: {what})", r, require_ok=False)
         if "ParseInv" not in r.violated and "Evaluating invariant ParseInv failed" not in r.output:
             raise MachineryError(f"negative control {cfg} did not break ParseInv")
@@ -871,8 +909,10 @@ def run(ctx):
     for fam, mk, dmg in FAMILIES[ctx.tier]:
         run_family(ctx, fam, consts(fam, mk), dmg)
     # 3. code -> spec
-    mode_traces(ctx)
-    mode_scenarios(ctx)
+    traces = mode_traces(ctx) + (mode_scenarios(ctx) or [])
+    n = validate_traces(ctx, traces, "all")
+    ctx.validated(n)
+    ctx.log(f"traces: {n} validated by TLC ({ctx.cov['traces']}) (cpu {cpu_s()}s)")
     for i in range(getattr(ctx, "_c11_nontrivial", 0)):
         ctx.nontrivial(("R", i))
     ctx.cov["rule"] = ("a case is one (entry set, version, skipHash, extension list); non-trivial = at least one entry, i.e. the writer, "
@@ -892,6 +932,8 @@ def run(ctx):
 def replay(ctx, path):
     obj = json.load(open(path))
     ctx.known = []
+    ctx.max_report = 0                          # a replay prints its own FAIL lines and writes no new replay files
+    ctx.replay_dir = ctx.tmpdir("replay-out")
     print(f"replay {path}\n  signature: {obj.get('signature')}\n  what: {obj.get('what')}")
     W = Work(ctx.tmpdir("rp"))
     if obj.get("mode") == "R":
